@@ -217,7 +217,7 @@ func c09Close(r *R) {
 		okMsg := len(sendSites) == 1
 		if okMsg {
 			s := sendSites[0]
-			okMsg = r.d.Of(core.Arg(s.Common(), 1)) == r.v(gb)+"#0.OtherPeer()" && r.d.Of(core.Arg(s.Common(), 2)) == "m.cancelMessage(chid)"
+			okMsg = r.dOf(s.(ssa.Instruction)).Of(core.Arg(s.Common(), 1)) == r.v(gb)+"#0.OtherPeer()" && r.dOf(s.(ssa.Instruction)).Of(core.Arg(s.Common(), 2)) == "m.cancelMessage(chid)"
 			// a conditional send inside the goroutine would not be a send on every path
 			if s.Parent() != fn {
 				for _, pt := range r.pathsOf("C09.5", s.Parent()) {
@@ -228,6 +228,13 @@ func c09Close(r *R) {
 			}
 		}
 		r.c.Check(okMsg, "C09.5", x.name+"/cancel-message", r.p.Pos(fn.Pos()), "cancel message of the right kind sent to the counterparty", "closing does not send m.cancelMessage(chid) to the channel's counterparty exactly once")
+		// a send that outlives the call (made from a goroutine the function starts) must not
+		// run on the caller's context: the caller releases it when the call returns
+		if len(sendSites) == 1 && sendSites[0].Parent() != fn {
+			s := sendSites[0]
+			root := ctxRoot(core.Arg(s.Common(), 0))
+			r.c.Check(root == "background", "C09.5", x.name+"/async-cancel-context", r.p.InstrPos(s), "the asynchronous cancel message is sent on its own context", "the cancel message is sent from a goroutine on a context derived from "+root+": once the closing call returns and its caller releases the context, the counterparty is never notified")
+		}
 		n := 0
 		for _, pt := range r.pathsOf("C09.5", fn) {
 			if pt.End != "return" || !pt.Has(found) {
@@ -292,4 +299,76 @@ func c09Selects(r *R) {
 		}
 	}
 	r.c.Floor("C09.6", n, 3, "blocking selects in transport/graphsync")
+}
+
+// ctxRoot follows a context value back through the context.With* /
+// trace.ContextWithSpan / tracer.Start derivations to where it comes from:
+// "background" (context.Background/TODO) or the name of a parameter, captured
+// variable or other origin.
+func ctxRoot(v ssa.Value) string {
+	for i := 0; i < 16 && v != nil; i++ {
+		switch x := v.(type) {
+		case *ssa.Extract:
+			v = x.Tuple
+		case *ssa.Phi:
+			roots := map[string]bool{}
+			for _, e := range x.Edges {
+				if e != x {
+					roots[ctxRoot(e)] = true
+				}
+			}
+			if len(roots) == 1 {
+				for k := range roots {
+					return k
+				}
+			}
+			return "several origins"
+		case *ssa.UnOp:
+			if a, ok := x.X.(*ssa.Alloc); ok {
+				if sv := core.SingleStore(a); sv != nil {
+					v = sv
+					continue
+				}
+				return "local " + a.Comment
+			}
+			if fv, ok := x.X.(*ssa.FreeVar); ok {
+				return "captured " + fv.Name()
+			}
+			return "memory"
+		case *ssa.Call:
+			c := x.Common()
+			if sc := c.StaticCallee(); sc != nil && sc.Pkg != nil && sc.Pkg.Pkg.Path() == "context" {
+				if sc.Name() == "Background" || sc.Name() == "TODO" {
+					return "background"
+				}
+				if len(c.Args) > 0 {
+					v = c.Args[0]
+					continue
+				}
+			}
+			// derivations that keep the parent's cancellation: first context-typed argument
+			var next ssa.Value
+			for _, a := range c.Args {
+				if strings.HasSuffix(a.Type().String(), "context.Context") {
+					next = a
+					break
+				}
+			}
+			if next == nil {
+				return "call " + x.String()
+			}
+			v = next
+		case *ssa.Parameter:
+			return "parameter " + x.Name()
+		case *ssa.FreeVar:
+			return "captured " + x.Name()
+		case *ssa.MakeInterface:
+			v = x.X
+		case *ssa.ChangeInterface:
+			v = x.X
+		default:
+			return v.String()
+		}
+	}
+	return "unknown"
 }
